@@ -17,8 +17,8 @@ PROPERTY = "C07"
 LEVEL = "model_checking"
 RULE = ("executions of Algorithm.evaluate(batch) with max_processes=2 under the controlled scheduler: 2 tasks without store: all "
         "interleavings; 2 tasks with a thread-safe SqliteDataStore: <=3 (quick) / <=4 (thorough) deviations (pre-emptions + busy-timeout "
-        "expiries); 3 tasks on 2 workers: <=3 without store, <=2 / <=3 with store; thorough adds line-level points with <=2 pre-emptions and transient objective "
-        "failures in workers. states = distinct (per-worker position labels) vectors visited; transitions = scheduling steps executed; "
+        "expiries); 3 tasks on 2 workers: <=3 without store, <=2 / <=3 with store; a constrained problem (designs of differing feasibility, scheduling points inside the constraint function); thorough adds line-level "
+        "points with <=2 pre-emptions and transient objective failures in workers. states = distinct (per-worker position labels) vectors visited; transitions = scheduling steps executed; "
         "distinct_nontrivial = distinct complete schedules (traces) with at least one context switch between unfinished workers.")
 ASSUMPTIONS = ["joblib's threading backend honours the contract of the model executor (lazy dispatch, each task once, shared memory, "
                "first exception re-raised); a free-running pass through the real joblib.Parallel with the same oracle cross-checks it",
@@ -31,10 +31,16 @@ def f(v):
     return [v[0] * 1.25 + 0.3333333333, 2.0 - v[0]]
 
 
-def expected_fields(vec):
+def g_constraint(x):
+    """Design 0 (x=1.0) satisfies the constraint, the others violate it."""
+    return [x[0] - 1.5]
+
+
+def expected_fields(vec, constrained=False):
     import numpy as np
     c = f(list(vec))
-    return c, [1 * np.round(c[0], decimals=7), -1 * np.round(c[1], decimals=7), True]
+    marker = (not all(v < 0 for v in g_constraint(list(vec)))) if constrained else True
+    return c, [1 * np.round(c[0], decimals=7), -1 * np.round(c[1], decimals=7), marker]
 
 
 class Env:
@@ -48,7 +54,10 @@ def run_batch(ctx, ntasks, store, fine, faults, real_joblib=False):
     from artap.individual import Individual
     from .c_support import make_problem, reset_ids
     reset_ids()
-    key = ("p",)
+    constrained = faults == "constrained"
+    if constrained:
+        faults = False
+    key = ("p", constrained)
     env = Env.cache.get(key)
     if env is None:
         env = {"holder": None, "ctx": None}
@@ -70,8 +79,17 @@ def run_batch(ctx, ntasks, store, fine, faults, real_joblib=False):
             s = h.get("sched") if h else None
             if s is not None:
                 s.point("obj:exit")
+        def g(x):
+            h = env["holder"]
+            sch = h.get("sched") if h else None
+            if sch is not None:
+                sch.point("g:enter")
+            r = g_constraint(x)
+            if sch is not None:
+                sch.point("g:exit")
+            return r
         env["problem"] = make_problem(n_params=1, bounds=[[0.0, 10.0]], criteria=["minimize", "maximize"], f=f,
-                                      before=before, after=after)
+                                      before=before, after=after, g=g if constrained else None)
         env["alg"] = DummyAlgorithm(env["problem"])
         env["alg"].options['max_processes'] = 2
         Env.cache[key] = env
@@ -130,6 +148,9 @@ def run_batch(ctx, ntasks, store, fine, faults, real_joblib=False):
 def judge(problem, batch, exc, rows, info, store, faults, desc):
     from artap.individual import Individual
     out = []
+    constrained = faults == "constrained"
+    if constrained:
+        faults = False
 
     def bad(key, msg):
         out.append((key, msg + "; " + desc))
@@ -146,13 +167,16 @@ def judge(problem, batch, exc, rows, info, store, faults, desc):
         if not faults:
             if n != 1:
                 bad("C07:objective-calls:%s" % ("none" if n == 0 else "repeated"), "design %d evaluated %d times" % (k, n))
-            costs, signed = expected_fields(ind.vector)
+            costs, signed = expected_fields(ind.vector, constrained)
             if ind.state != Individual.State.EVALUATED:
                 bad("C07:state", "design %d state %r" % (k, ind.state))
             if list(ind.costs) != costs:
                 bad("C07:costs-differ-from-serial", "design %d costs %r, serial evaluation gives %r" % (k, ind.costs, costs))
-            if [float(x) for x in ind.costs_signed[:-1]] != [float(x) for x in signed[:-1]] or ind.costs_signed[-1] is not True:
-                bad("C07:signed-costs-differ-from-serial", "design %d signed %r, serial %r" % (k, ind.costs_signed, signed))
+            if [float(x) for x in ind.costs_signed[:-1]] != [float(x) for x in signed[:-1]] or ind.costs_signed[-1] is not signed[-1]:
+                bad("C07:signed-costs-differ-from-serial%s" % (":feasibility-marker" if ind.costs_signed[-1] is not signed[-1] else ""),
+                    "design %d signed %r, serial %r" % (k, ind.costs_signed, signed))
+            if constrained and bool(ind.features.get("feasible")) != (not signed[-1]):
+                bad("C07:feasible-feature-differs-from-serial", "design %d feasible=%r, serial %r" % (k, ind.features.get("feasible"), not signed[-1]))
     if faults:
         # reference retry protocol, per design (designs run concurrently, so only per-design order is defined)
         five = False
@@ -278,11 +302,14 @@ def run(tier, seed):
                   ("explore", 3, False, False, False, 4), ("explore", 3, True, False, False, 3),
                   ("explore", 2, False, True, False, 2), ("explore", 2, True, True, False, 2),
                   ("explore", 2, True, False, True, 3), ("explore", 4, True, False, False, 2),
+                  ("explore", 2, False, False, "constrained", None), ("explore", 3, True, False, "constrained", 2),
+                  ("explore", 2, False, True, "constrained", 2),
                   ("free", 2, True, 50), ("free", 3, True, 50), ("free", 3, False, 50)]
     else:
         shards = [("explore", 2, False, False, False, None), ("explore", 2, True, False, False, 3),
                   ("explore", 3, False, False, False, 3), ("explore", 3, True, False, False, 2),
                   ("explore", 2, True, False, True, 1), ("explore", 2, False, True, False, 1),
+                  ("explore", 2, False, False, "constrained", 3), ("explore", 3, True, False, "constrained", 1),
                   ("free", 2, True, 10), ("free", 3, False, 10)]
     split = []
     for sh in shards:
